@@ -24,3 +24,5 @@ for p in res["paths"]:
 print({k: v for k, v in res.items() if k not in ("paths", "functions", "aten_ops")})
 for p in res["paths"]:
     if "trace" in p: print(p["prefix"], p["trace"])
+for v in res.get("violations", []) + [h for h in res.get("harness_errors", [])]:
+    if isinstance(v, dict) and v.get("tb"): print(v["tb"])
